@@ -167,7 +167,8 @@ def monStep (m : MSt) (bl : Block) : MSt × List String :=
       (match ev with
        | .reset _ => if bl.outs.contains ["det", "restarted=true"] then [] else
            ["C15:detector-not-restarted-on-camera-reset-background-not-re-seeded", "C09:detector-not-restarted-on-camera-reset",
-            "C14:camera-reset-marker-did-not-restart-detection"]
+            "C14:camera-reset-marker-did-not-restart-detection",
+            "C07:compare-frames-from-before-the-camera-reset-are-still-in-use"]
        | _ => [])
     let (orc, fo) : Option PState × List String := match m.orc with
       | none => (none, [])
